@@ -19,6 +19,9 @@ BeginVerdict(e) ==
   ELSE IF ~e.flag THEN "syntax"
   ELSE IF e.n # 1 THEN "not-single-statement"
   ELSE IF e.clause = "prepare-failed" THEN "prepare"
+  \* the statement as the default options print it (format = true) does not consist of the same tokens (under the dialect's
+  \* tokenizer) as the compact statement judged here: what a default compile hands to the database is another text
+  ELSE IF e.clause = "printed-differs" THEN "printed"
   ELSE ""
 BeginOk == /\ Consume /\ Ev.ev = "Begin" /\ BeginVerdict(Ev) = ""
            /\ m' = Begin(Ev) /\ cur' = Ev.name /\ bad' = FALSE /\ nq' = nq + 1 /\ UNCHANGED <<nrej, nskip>>
